@@ -2,7 +2,7 @@
     The same function is extracted to OCaml (ocaml/modelrun) and can be evaluated inside Coq. *)
 From Coq Require Import Strings.String Strings.Byte.
 From Coq Require Import List Arith NArith ZArith Bool.
-From PV Require Import Base.Bytes Base.Outcome Base.KV Compkey.Model Aol.Model Aol.Query Bank.Model Did.Model Pnft.Model Chain.Model Driver.Tok.
+From PV Require Import Base.Bytes Base.Outcome Base.KV Compkey.Model Aol.Model Aol.Query Bank.Model Did.Model Pnft.Model Chain.Model Keystore.Load Driver.Tok.
 From PV Require Generated.GenNft.
 From PV Require Pagination.Model.
 Import ListNotations.
@@ -483,7 +483,9 @@ Definition dump_entry (e : bytes * aol_val) : bytes :=
 
 Definition optkey_of_tok (t : tok) : option (option bytes) :=
   if tok_is t "nil" then Some None
-  else match bytes_of_tok t with Some k => Some (Some k) | None => None end.
+  else match bytes_of_tok t with
+       | Some [] => Some None       (* an empty key does not survive the protobuf wire: the handler sees nil *)
+       | Some k => Some (Some k) | None => None end.
 Definition bool_of_tok (t : tok) : option bool :=
   if tok_is t "1" then Some true else if tok_is t "0" then Some false else None.
 
@@ -769,6 +771,30 @@ Definition chain_cmd (st : dstate) (cmd : tok) (args : list tok) : option (dstat
                    | _ => b "S skipped"
                    end])
     | None => Some (st, bad)
+    end
+  else if tok_is cmd "KS" then
+    (* a key-store file described by its features: KS json version cipher kdf prf machex ivhex cthex salthex ivlen dklen macok *)
+    match args with
+    | [j; ver; ci; kd; pr; mh; ih; ch; sh; il; dk; mm] =>
+        let zs (t : tok) : option Z :=
+          match t with
+          | c :: r => if byte_eqb c "-"%byte then match parse_dec r with Some n => Some (- Z.of_N n)%Z | None => None end
+                      else match parse_dec t with Some n => Some (Z.of_N n) | None => None end
+          | [] => None
+          end in
+        match bool_of_tok j, zs ver, bytes_of_tok ci, bytes_of_tok kd, bytes_of_tok pr with
+        | Some j', Some ver', Some ci', Some kd', Some pr' =>
+            match bool_of_tok mh, bool_of_tok ih, bool_of_tok ch, bool_of_tok sh, nat_tok il, zs dk, bool_of_tok mm with
+            | Some mh', Some ih', Some ch', Some sh', Some il', Some dk', Some mm' =>
+                let f := {| kf_json_ok := j'; kf_version := ver'; kf_cipher := ci'; kf_kdf := kd'; kf_prf := pr';
+                            kf_mac_hex_ok := mh'; kf_iv_hex_ok := ih'; kf_ct_hex_ok := ch'; kf_salt_hex_ok := sh';
+                            kf_iv_len := il'; kf_dklen := dk'; kf_mac_matches := mm' |} in
+                Some (st, [match load true f with LOk => b "K ok" | LErr => b "K err" | LPanic => b "K panic" end])
+            | _, _, _, _, _, _, _ => Some (st, bad)
+            end
+        | _, _, _, _, _ => Some (st, bad)
+        end
+    | _ => Some (st, bad)
     end
   else if tok_is cmd "EXPORTIMPORT" then
     match export_import (bech_of st) (unbech_of st) (d_chain st) with
